@@ -178,9 +178,36 @@ def unionBody (cfg : GenCfg) (e : EqEnv) (f : Nat) (s : Split) : Except PyErr Ty
   let types ← other.mapM (optimize cfg e f)
   finishOpt cfg.lit types
 
-theorem optimizeUnion_body (cfg : GenCfg) (e : EqEnv) (f : Nat) (ms : List Ty) :
-    optimizeUnion cfg e (f + 1) ms = unionBody cfg e f (ms.foldl (splitStep cfg.reg) {}) :=
+/-- `_optimize_union` as the staged body applied to the split -/
+theorem optimizeUnion_split (cfg : GenCfg) (e : EqEnv) (f : Nat) (ms : List Ty) :
+    optimizeUnion cfg e (f + 1) ms = unionBody cfg e f (splitMembers cfg.reg ms) :=
   optimizeUnion_eq cfg e f ms
+
+/-- without hidden unions among the members the split is the category fold -/
+theorem optimizeUnion_body (cfg : GenCfg) (e : EqEnv) (f : Nat) (ms : List Ty)
+    (h : ∀ t ∈ ms, hidden t = false) :
+    optimizeUnion cfg e (f + 1) ms = unionBody cfg e f (ms.foldl (splitStep cfg.reg) {}) := by
+  rw [optimizeUnion_split, splitMembers_eq _ _ h]
+
+/-- a lone `Optional[Union[us]]` member (an element type `Optional[Union[..]]` of a list): the worklist
+    contributes `Null` and splices the members `us` -/
+theorem splitMembers_opt_union (reg : StrRegistry) (us : List Ty) (h : ∀ t ∈ us, hidden t = false) :
+    splitMembers reg [.opt (.union us)] = us.foldl (splitStep reg) { other := [Ty.null] } := by
+  rw [SplitW.splitMembers_eq]
+  have hf : SplitW.fuelOf [Ty.opt (.union us)] = (us.length + (Ty.sizeList us + 3 - us.length)) + 1 := by
+    have : us.length ≤ Ty.sizeList us := by
+      induction us with
+      | nil => simp [Ty.sizeList]
+      | cons u us ih =>
+        have hp : 0 < u.size := by cases u <;> simp [Ty.size] <;> omega
+        have := ih (fun t ht => h t (by simp [ht]))
+        simp only [Ty.sizeList, List.length_cons]; omega
+    simp only [SplitW.fuelOf, List.map_cons, List.map_nil, List.sum_cons, List.sum_nil, List.length_cons,
+      List.length_nil, Ty.size]
+    omega
+  rw [hf, SplitW.expand_succ_opt_union, List.append_nil,
+    SplitW.expand_id _ us h (by omega)]
+  rfl
 
 theorem unionBody_canon (cfg : GenCfg) (e : EqEnv) (f : Nat) {ms O J L D S T : List Ty}
     (c : Canon ms O J L D S T) (pre : List Ty)
@@ -373,7 +400,7 @@ theorem collapse_ge2 {us : List Ty} (h : 2 ≤ us.length) : collapse us = .union
 
 def MemOK (cfg : GenCfg) (ms : List Ty) : Prop :=
   (∀ m ∈ ms, nfc cfg m = true) ∧
-  ((∃ x, ms = [x] ∧ x.isOptNull = false) ∨ (nfUnionMembers ms = true ∧ canonOrder ms = true))
+  ((∃ x, ms = [x] ∧ x.isOptNull = false ∧ x.isUnion = false) ∨ (nfUnionMembers ms = true ∧ canonOrder ms = true))
 
 def IdemAt (cfg : GenCfg) (e : EqEnv) (n : Nat) : Prop :=
   (∀ t, t.size ≤ n → nfc cfg t = true → ∀ F, 4 * t.size ≤ F → optimize cfg e F t = .ok t) ∧
@@ -398,7 +425,7 @@ theorem inner_ok {cfg : GenCfg} {e : EqEnv} {n : Nat} (ih : IdemAt cfg e n) (x :
     rw [collapse_ge2 um.len]
   · rw [mkUM_single hn (by simpa using hu)]
     have : Ty.sizeList [x] = x.size := by simp [Ty.sizeList]
-    rw [ih.2 [x] (by omega) ⟨by simpa using hn, Or.inl ⟨x, rfl, hon⟩⟩ f (by omega)]
+    rw [ih.2 [x] (by omega) ⟨by simpa using hn, Or.inl ⟨x, rfl, hon, by simpa using hu⟩⟩ f (by omega)]
     rfl
 
 theorem relist_ok {cfg : GenCfg} {e : EqEnv} {n : Nat} (ih : IdemAt cfg e n) (t x : Ty)
@@ -596,14 +623,41 @@ theorem body_ok {cfg : GenCfg} {e : EqEnv} {n : Nat} (ih : IdemAt cfg e n)
 theorem not_int_float_single (x : Ty) : ¬ ([x].any Ty.isInt = true ∧ [x].any Ty.isFloat = true) := by
   cases x <;> simp [Ty.isInt, Ty.isFloat]
 
+theorem finishOpt_null_union {cfg : GenCfg} {us O J L D S T : List Ty} (c : Canon us O J L D S T) (um : UM us)
+    (hm : ∀ t ∈ us, nfc cfg t = true) :
+    finishOpt cfg.lit ([Ty.null] ++ O ++ T ++ J ++ L ++ D ++ S) = .ok (.opt (.union us)) := by
+  have hlen : (O ++ T ++ J ++ L ++ D ++ S).length = us.length := c.length_eq
+  have hmem : ∀ t ∈ O ++ T ++ J ++ L ++ D ++ S, t ∈ us := fun t ht => (c.mem_ms t).mp ht
+  rw [show [Ty.null] ++ O ++ T ++ J ++ L ++ D ++ S = Ty.null :: (O ++ T ++ J ++ L ++ D ++ S) by simp]
+  generalize hX : O ++ T ++ J ++ L ++ D ++ S = X at hlen hmem
+  rw [finishOpt_ge2 _ _ (by have := um.len; simp only [List.length_cons]; omega)]
+  have h1 : dropUnknown (Ty.null :: X) = Ty.null :: X := by
+    unfold dropUnknown
+    have : (Ty.null :: X).any Ty.isUnknown = false := by
+      rw [List.any_eq_false]; intro t ht
+      rcases List.mem_cons.mp ht with rfl | ht
+      · simp [Ty.isUnknown]
+      · simp [(um.mem t (hmem t ht)).2.2.2]
+    rw [this]; rfl
+  have h2 : (Ty.null :: X).any Ty.isNull = true := by simp [Ty.isNull]
+  have h3 : (Ty.null :: X).filter (fun t => !t.isNull) = X := by
+    rw [List.filter_cons]
+    simp only [show Ty.isNull .null = true from rfl, Bool.not_true, Bool.false_eq_true, ↓reduceIte]
+    rw [List.filter_eq_self]; intro t ht
+    have := (um.mem t (hmem t ht)).2.2.1
+    simp [this]
+  rw [h1, h2, h3]
+  simp only [↓reduceIte]
+  have h4 := (mkUM_of_canon cfg.lit c um (nfc_lits hm)).1
+  rw [← hX, show O ++ T ++ J ++ L ++ D ++ S = O ++ T ++ (J ++ L ++ D ++ S) by simp, h4, collapse_ge2 um.len]
+
 theorem Q_step {cfg : GenCfg} {e : EqEnv} {n : Nat} (ih : IdemAt cfg e n)
     (hP : ∀ t, t.size ≤ n + 1 → nfc cfg t = true → ∀ F, 4 * t.size ≤ F → optimize cfg e F t = .ok t) :
     ∀ ms, Ty.sizeList ms ≤ n + 1 → MemOK cfg ms → ∀ F, 4 * Ty.sizeList ms + 1 ≤ F →
       optimizeUnion cfg e F ms = .ok (collapse ms) := by
   intro ms hs ⟨hm, hcase⟩ F hF
   obtain ⟨f, rfl⟩ : ∃ f, F = f + 1 := ⟨F - 1, by omega⟩
-  rw [optimizeUnion_body]
-  rcases hcase with ⟨x, rfl, hon⟩ | ⟨hnu, co⟩
+  rcases hcase with ⟨x, rfl, hon, hxu⟩ | ⟨hnu, co⟩
   · have hx : nfc cfg x = true := hm x (by simp)
     have hsx : Ty.sizeList [x] = x.size := by simp [Ty.sizeList]
     have hpos := Ty.size_pos x
@@ -615,26 +669,53 @@ theorem Q_step {cfg : GenCfg} {e : EqEnv} {n : Nat} (ih : IdemAt cfg e n)
       have hynull : y.isNull = false := by
         cases y <;> simp_all [Ty.isOptNull, Ty.isNull]
       simp only [Ty.size] at hsx
-      rw [List.foldl_cons, List.foldl_nil, splitStep_opt _ _ _ hx.1]
-      obtain ⟨O, J, L, D, S, T, c⟩ := canon_decomp [y] (by simp [canonOrder])
-      have := body_ok ih hP f c [Ty.null] (by simp) (by omega)
-        (by intro m hm'; simp at hm'; subst hm'; exact ⟨hx.2, hx.1, by omega, by omega⟩)
-        (not_int_float_single y)
-      rw [show ([y].foldl (splitStep cfg.reg) { other := [Ty.null] }) =
-        splitStep cfg.reg { other := [Ty.null] } y from rfl] at this
-      show unionBody cfg e f (splitStep cfg.reg { other := [Ty.null] } y) = _
-      rw [this]
-      have hsing := c.single
-      rw [show [Ty.null] ++ O ++ T ++ J ++ L ++ D ++ S = [Ty.null] ++ (O ++ T ++ J ++ L ++ D ++ S) by simp,
-        hsing]
-      exact finishOpt_null hx.2 hynull
+      by_cases hyu : y.isUnion = true
+      · -- `[Optional[Union[us]]]`: the members of the hidden union are spliced in
+        cases y <;> simp [Ty.isUnion] at hyu
+        rename_i us
+        obtain ⟨um, co, hmu⟩ := nfc_union_facts hx.2
+        have hhid : ∀ t ∈ us, hidden t = false := fun t ht =>
+          hidden_false_of (um.mem t ht).1 (um.mem t ht).2.1
+        rw [optimizeUnion_split, splitMembers_opt_union _ _ hhid]
+        obtain ⟨O, J, L, D, S, T, c⟩ := canon_decomp us co
+        simp only [Ty.size] at hsx hs hF
+        rw [hsx] at hs hF
+        have := body_ok ih hP f c [Ty.null] (by simp)
+          (by have := um.len
+              match us, this with
+              | a :: b :: rest, _ => have := Ty.size_pos a; simp only [Ty.sizeList] at hF; omega)
+          (by intro m hm'
+              have := Ty.size_le_sizeList hm'
+              exact ⟨hmu m hm', (um.mem m hm').2.1, by omega, by omega⟩)
+          um.intFloat
+        rw [this]
+        exact finishOpt_null_union c um hmu
+      · have hyu' : y.isUnion = false := by simpa using hyu
+        rw [optimizeUnion_body _ _ _ _ (by
+          intro t ht; simp at ht; subst ht; exact hidden_false_opt hyu')]
+        rw [List.foldl_cons, List.foldl_nil, splitStep_opt _ _ _ hx.1]
+        obtain ⟨O, J, L, D, S, T, c⟩ := canon_decomp [y] (by simp [canonOrder])
+        have := body_ok ih hP f c [Ty.null] (by simp) (by omega)
+          (by intro m hm'; simp at hm'; subst hm'; exact ⟨hx.2, hx.1, by omega, by omega⟩)
+          (not_int_float_single y)
+        rw [show ([y].foldl (splitStep cfg.reg) { other := [Ty.null] }) =
+          splitStep cfg.reg { other := [Ty.null] } y from rfl] at this
+        show unionBody cfg e f (splitStep cfg.reg { other := [Ty.null] } y) = _
+        rw [this]
+        have hsing := c.single
+        rw [show [Ty.null] ++ O ++ T ++ J ++ L ++ D ++ S = [Ty.null] ++ (O ++ T ++ J ++ L ++ D ++ S) by simp,
+          hsing]
+        exact finishOpt_null hx.2 hynull
     · have hopt' : x.isOpt = false := by simpa using hopt
+      rw [optimizeUnion_body _ _ _ _ (by
+        intro t ht; simp at ht; subst ht; exact hidden_false_of hxu hopt')]
       obtain ⟨O, J, L, D, S, T, c⟩ := canon_decomp [x] (by simp [canonOrder])
       have := body_ok ih hP f c [] (by simp) (by omega)
         (by intro m hm'; simp at hm'; subst hm'; exact ⟨hx, hopt', by omega, by omega⟩)
         (not_int_float_single x)
       rw [this, List.nil_append, c.single]; rfl
   · have um := nfUnionMembers_UM hnu
+    rw [optimizeUnion_body _ _ _ _ (fun t ht => hidden_false_of (um.mem t ht).1 (um.mem t ht).2.1)]
     obtain ⟨O, J, L, D, S, T, c⟩ := canon_decomp ms co
     have := body_ok ih hP f c [] (by simp)
       (by have := um.len
@@ -659,7 +740,7 @@ theorem idemAt_all (cfg : GenCfg) (e : EqEnv) : ∀ n, IdemAt cfg e n := by
     · intro t hs; have := Ty.size_pos t; omega
     · intro ms hs ⟨hm, hcase⟩
       exfalso
-      rcases hcase with ⟨x, rfl, _⟩ | ⟨hnu, _⟩
+      rcases hcase with ⟨x, rfl, _, _⟩ | ⟨hnu, _⟩
       · have := Ty.size_pos x; simp [Ty.sizeList] at hs; omega
       · have := (nfUnionMembers_UM hnu).len
         match ms, this with
